@@ -51,6 +51,10 @@ def cases(tier, seed):
         s = gens.gen_pyramid(R, maxdepth=4, mindepth=2, kinds=("generic", "toast", "filtered"), sub_p=0.3)
         s.update(profile=R.choice(["natural", "jitter", "slow_workers", "heavy_tail"]), par=R.choice([2, 3, 4]), seed=R.randrange(1 << 30), fail_at="pick")
         out.append(s)
+    # long walks: many hundreds of tiles per worker (anything that wears out, recycles or rotates after N tiles)
+    for d, k in (((6, 2),) if tier == "quick" else ((6, 2), (6, 2), (6, 3), (7, 8), (7, 4))):
+        out.append(dict(kind="generic", depth=d, apex=None, accepted=None, coordsys="astronomical", profile=R.choice(["natural", "natural", "jitter"]) if tier != "quick" else "natural", par=k,
+                        seed=R.randrange(1 << 30), _timeout=600))
     for m in ("forkserver", "spawn"):
         for kind in (("generic", "toast") if tier == "quick" else ("generic", "toast", "generic", "toast")):
             out.append(dict(t="startmethod", method=m, kind=kind, depth=R.choice([2, 3]), par=R.choice([2, 4]), seed=R.randrange(1 << 30), profile="natural", apex=None))
